@@ -71,8 +71,13 @@ func FSCorrupt(dir string, how int) {
 			os.Truncate(p, 0)
 		case 1:
 			os.WriteFile(p, []byte{0xff, 0xff, 0xff, 0x07, 0x13, 0x37, 0xfe}, 0o644)
-		case 2:
-			os.Chmod(p, 0)
+		case 2: // unreadable: no permission; for the super-user (who may read anything) a directory in the entry's place
+			if os.Geteuid() == 0 {
+				os.Remove(p)
+				os.Mkdir(p, 0o755)
+			} else {
+				os.Chmod(p, 0)
+			}
 		case 3: // cut short: the last byte is missing
 			if st, err := os.Stat(p); err == nil && st.Size() > 1 {
 				os.Truncate(p, st.Size()-1)
